@@ -12,6 +12,7 @@ import DeapModel.Lemmas.C15Wrap
 import DeapModel.Lemmas.C15Measure
 import DeapModel.Lemmas.C15Sweep2d
 import DeapModel.Lemmas.C15Sweep3d
+import DeapModel.Lemmas.C15Gen7
 
 namespace C15
 open Hypervolume MeasureTheory
@@ -243,11 +244,13 @@ example : ([[1, 2], [2, 1]] : List (List ℚ)) ≠ [] ∧ ∀ v ∈ ([[1, 2], [2
 `hvRecursive` (base cases `dimIndex == 0`, `== 1`, general case with bounds pruning, `ignore` marking,
 `remove` / `reinsert`) exactly as pyhv.py does; the correspondence run diffs it against pyhv's value AND
 observable final state on every hypervolume case.  Proved here: it terminates in every dimension and hands
-the lists back intact; it computes the specification for `d ≤ 3` (for `d = 3` through the general case:
-remove all but one node, reinsert in the order of the last coordinate, staircase of the nodes present, slab
-sum); and the specification of its recursive step (slab decomposition, along the leading and along the last
-coordinate) in every dimension.  Open: that the general case implements that step when it REUSES cached areas /
-volumes below `bounds` and skips `ignore`d nodes, which only happens for `d ≥ 4` (`sweep_eq_hvCells_Statement`). -/
+the lists back intact, and — `sweep_eq_hvCells` — it returns the specification `hvCells` in EVERY dimension.
+The proof (Lemmas/C15Gen1-7) is an induction over the levels of `hvRecursive` with an invariant on the
+multi-list state: in every dimension `i` the linked list is the static order restricted to the nodes present;
+the `area[i]` / `volume[i]` caches of every node strictly below `bounds[i]` hold the `i`-dimensional hypervolume
+of the nodes at or before it and the accumulated slabs (`CV`); a node with `ignore = m ≥ 1` is weakly dominated
+in the coordinates `0..m` by a present node that precedes it in the orders `1..m` (`IG`).  `sweep_1d/2d/3d` and
+`sweep_eq_hvCells_partial` are kept as the low-dimensional instances proved directly. -/
 
 open HvSweep in
 /-- **Termination in every dimension**: with the fuel `n + 1` that `compute` supplies, no pointer-following
@@ -375,9 +378,7 @@ example : ∀ p ∈ ([(1, 2, 0), (2, 0, 1), (0, 1, 3)] : List (ℚ × ℚ × ℚ
   rcases hp with rfl | rfl | rfl <;> norm_num
 
 /-- The full correctness statement of the transcribed algorithm: for every dimension `d ≥ 1`, every list of
-points of that dimension at or below the reference, it returns the specification.  NOT proved for `d ≥ 4`
-(there a level is entered several times, and the reuse of cached areas / volumes below `bounds` and the skipping
-of `ignore`d nodes are only validated by the correspondence run); nothing below depends on it. -/
+points of that dimension at or below the reference, it returns the specification. -/
 def sweep_eq_hvCells_Statement : Prop :=
   ∀ (ref : List ℚ) (front : List (List ℚ)), 1 ≤ ref.length → (∀ p ∈ front, p.length = ref.length) →
     (∀ p ∈ front, ∀ j < ref.length, p.getD j 0 ≤ ref.getD j 0) →
@@ -433,5 +434,30 @@ example : 1 ≤ ([3, 3] : List ℚ).length ∧ ([3, 3] : List ℚ).length ≤ 3 
   intro p hp
   simp only [List.mem_cons, List.not_mem_nil, or_false] at hp
   rcases hp with rfl | rfl <;> rfl
+
+/-- **`sweep_eq_hvCells`: the transcribed dimension-sweep algorithm of pyhv (`preProcess`, `hvRecursive` with its
+bounds pruning, cached areas / volumes, `ignore` marking, `remove` / `reinsert`) returns the specification in
+EVERY dimension** — for every reference point of dimension `d ≥ 1` and every list of points of that dimension at
+or below it. -/
+theorem sweep_eq_hvCells : sweep_eq_hvCells_Statement := by
+  intro ref front hd hlen hle
+  rcases Nat.lt_or_ge ref.length 2 with h | h
+  · exact sweep_eq_hvCells_partial ref front hd (by omega) hlen hle
+  · exact HvSweep.sweep_general ref front h hlen hle
+
+/-- … hence the transcribed algorithm returns the Lebesgue measure of the union of the boxes. -/
+theorem sweep_eq_volume (ref : List ℚ) (front : List (List ℚ)) (hd : 1 ≤ ref.length)
+    (hlen : ∀ p ∈ front, p.length = ref.length) (hle : ∀ p ∈ front, ∀ j < ref.length, p.getD j 0 ≤ ref.getD j 0) :
+    ∃ v : ℚ, HvSweep.compute front ref = some v ∧
+      volume (⋃ p ∈ front, Set.pi Set.univ
+        (fun j : Fin ref.length => Set.Ico (((p.getD j 0 : ℚ)) : ℝ) (((ref.getD j 0 : ℚ)) : ℝ))) = ENNReal.ofReal (v : ℝ) :=
+  ⟨hvCells ref front, sweep_eq_hvCells ref front hd hlen hle, hvCells_eq_volume ref front⟩
+
+example : 1 ≤ ([4, 4, 4, 4, 4] : List ℚ).length ∧
+    (∀ p ∈ ([[0, 0, 1, 3, 0], [1, 2, 0, 3, 2], [1, 2, 0, 0, 3]] : List (List ℚ)), p.length = ([4, 4, 4, 4, 4] : List ℚ).length) := by
+  refine ⟨by simp, ?_⟩
+  intro p hp
+  simp only [List.mem_cons, List.not_mem_nil, or_false] at hp
+  rcases hp with rfl | rfl | rfl <;> rfl
 
 end C15
